@@ -238,11 +238,15 @@ def sendOp (d : D) (bytes : Bytes) (own : Option Nat) : D × String :=
 def stepLine (d : D) (line : String) : D × String :=
   let ws := splitWords line
   let d := { d with opIdx := d.opIdx + 1 }
+  -- the clock reading the harness wrote into the op (ms since init): an input of the model
+  let d := match kvNat ws "t" with
+    | some t => { d with base := { d.base with now := t }, view := { d.view with now := t } }
+    | none => d
   match ws with
   | "init" :: rest =>
     let flag (k : String) : Bool := (kvNat rest k).getD 0 == 1
     let s0 : State := { verifyOnly := flag "verifyonly", hasTx := flag "tx", hasHH := flag "hh",
-                        pingNonce := (kvNat rest "pn").getD 0 }
+                        pingNonce := (kvNat rest "pn").getD 0, txTimeout := (kvNat rest "txto").getD 3600000 }
     ({ env := mkEnv ((kvNat rest "mem").getD (2 ^ 31)), base := s0, view := s0, opIdx := 0 }, "tx=[version]")
   | "msg" :: rest =>
     match classicFrame rest with
@@ -265,6 +269,17 @@ def stepLine (d : D) (line : String) : D × String :=
     | some n => sendOp d [] (some n)
     | none => (d, "bad-op")
   | "expect" :: _ => sendOp d [] none
+  | "wait" :: _ => (d, "ok")
+  | "polltx" :: _ =>
+    -- TxManager.GetTxRequests for this node + BitcoinNode.RequestTxs, then the barrier
+    if d.mode != .open_ then (d, "dead")
+    else if !d.base.hasTx then (d, "req=notx")
+    else if !d.pending.isEmpty then (d, "req=busy")
+    else
+      let (s', k) := txPoll d.base
+      let d1 := { d with base := s', view := { s' with ready := d.view.ready, verified := d.view.verified, hsComplete := d.view.hsComplete } }
+      let (d2, out) := sendOp d1 [] none
+      (d2, s!"req={k} {out}")
   | "reqblock" :: rest =>
     match (kv rest "hdr").bind hexToBytes with
     | some h =>
